@@ -19,7 +19,8 @@ func init() {
 			"(K) key agreement: datastore keys for requests, responses and blob parts are built with the same kind and the same argument roles on the write and on the read path; blob parts are written under names recorded in loop order and read back with one ordered GetMulti over keys built from blob.Parts in order, concatenated in that order, without goroutines; " +
 			"(C) completion: Completed=true is set on the request that was read, before it is written back; the pending query filters Completed=false on the kind of the same backend; " +
 			"(H) no call hangs: every error channel has capacity ≥ the maximum number of sends that can happen (path-sensitive count over the function plus its goroutines; loop-spawned senders vs. a capacity equal to the loop bound); WaitGroup Add(n) equals the goroutines that defer Done; both wait loops select on a context derived from context.WithTimeout(constant) and return; the time-out maps to 504. " +
-			"(S) cache keys are injective in (backend ID, request ID) and built from the same roles on both sides; (R) the GET response cache key is injective in (user, URL), one value for lookup and store, GET only.",
+			"(S) cache keys are injective in (backend ID, request ID) and built from the same roles on both sides; (R) the GET response cache key is injective in (user, URL), one value for lookup and store, GET only. " +
+			"(I, second part) nothing parses the form or reads the body of the client's request before r.Write serialises it.",
 		Assumptions: []string{"datastore GetMulti returns entities in key order; memcache/datastore round-trip byte slices"},
 		Run:         runC19,
 	})
@@ -69,7 +70,7 @@ func maxSends(fn *ssa.Function, pred func(ssa.Instruction) bool) int {
 
 func runC19(c *Ctx) {
 	p := c.Progs["mod"]
-	c.Rule("C19.I", "chain of custody of (backend ID, request ID) and of the stored bytes", 21)
+	c.Rule("C19.I", "chain of custody of (backend ID, request ID) and of the stored bytes", 22)
 	c.Rule("C19.K", "key agreement between write and read paths; ordered blob parts", 9)
 	c.Rule("C19.C", "completion flag", 3)
 	c.Rule("C19.S", "cache and datastore keys encode (backend ID, request ID) injectively, same roles on both sides (= C17.S keys)", 5)
@@ -125,6 +126,40 @@ func runC19(c *Ctx) {
 					}, func(ssa.Value) bool { return false })
 					okBytes = reaches
 				}
+			}
+			if w := c.UniqueCall("C19.I", p, f, false, "(*net/http.Request).Write"); w != nil {
+				// nothing consumes the request (form parsing, body reads) before it is serialised
+				bad := ""
+				for _, fn := range WithClosures(f) {
+					EachInstr(fn, func(i ssa.Instruction) {
+						cc := CallOf(i)
+						if cc == nil || i == w || Dominates(w, i) {
+							return
+						}
+						nm := CalleeName(cc)
+						switch nm {
+						case "(*net/http.Request).FormValue", "(*net/http.Request).PostFormValue", "(*net/http.Request).ParseForm", "(*net/http.Request).ParseMultipartForm", "(*net/http.Request).FormFile", "(*net/http.Request).MultipartReader":
+							if PathOf(Args(cc)[0]) == P(f, 4) {
+								bad = nm + " at " + p.Pos(i.Pos())
+							}
+							return
+						}
+						switch nm[strings.LastIndex(nm, ".")+1:] {
+						case "Read", "ReadAll", "ReadFull", "ReadAtLeast", "Copy", "CopyN", "CopyBuffer", "ReadFrom", "Discard", "Peek", "NewDecoder", "NewReader", "NewScanner", "MaxBytesReader", "LimitReader", "TeeReader":
+						default:
+							return
+						}
+						for _, a := range Args(cc) {
+							SliceBack(a, func(v ssa.Value) bool {
+								if base, fld, ok := FieldLoad(v); ok && fld == "Body" && PathOf(base) == P(f, 4) {
+									bad = nm + " on the request body at " + p.Pos(i.Pos())
+								}
+								return true
+							})
+						}
+					})
+				}
+				c.Check("C19.I", "proxy:request-unconsumed-before-serialising", p, w.Pos(), bad == "", "nothing parses the form or reads the body of the client's request before r.Write serialises it", "the client's request is consumed before it is serialised ("+bad+"): form parsing and body reads drain r.Body, so the stored bytes are not the client's request (empty body, or r.Write fails on the Content-Length mismatch)")
 			}
 			c.Check("C19.I", "proxy:stores-own-serialised-request", p, pr.Pos(), okBytes, "the bytes stored are read from the buffer this request was serialised into (r.Write)", "the bytes handed to postRequest are not the serialisation of the handler's own request")
 			if rr := c.UniqueCall("C19.I", p, f, false, "net/http.ReadResponse"); rr != nil {
